@@ -1,6 +1,8 @@
 """C17 — fragmented messages read like contiguous ones."""
 import itertools
+import os
 
+from .. import build
 from .. import gen
 from .. import run as _run
 
@@ -10,11 +12,14 @@ driver = "drv_message"
 cxx = False
 fixed_lines = 1
 rule = ("scripts = 'm frags <hex>,<hex>,..' (every fragment its own exact-size malloc block) followed by message ops; "
-        "stream 1 (exhaustive) = every byte string over {20,61,00,22,23} up to length 3 (thorough: 4) x EVERY composition "
-        "into fragments x every insertion of up to 2 empty fragments x {len; chr/rchr of each letter; str/rstr/fcn/rfcn "
+        "stream 1 (exhaustive) = every byte string over {20,61,00,22,23} up to length 3 x EVERY composition "
+        "into fragments x every insertion of up to 2 empty fragments (thorough: also length 4 x every composition x at most "
+        "1 empty fragment) x {len; chr/rchr of each letter; str/rstr/fcn/rfcn "
         "with 3 sets; tok with 16 (tok,com,esc) combinations; cpy with every length -1..len+1 into 4 target layouts; "
-        "read of every length 0..len+1 with and without target; argv/args with 5 separators; append}; quick adds a seeded "
-        "sample of the length-4 scope, thorough a sample of length 5; stream 2 = quoted/escaped/whitespace argument "
+        "read of every length 0..len+1 with and without target; argv/args with 5 separators; append}; both tiers add a seeded "
+        "sample of length 4 with 2 empty fragments, thorough also of length 5; scripts that enter the keyed region of the "
+        "known finding quote-open-at-base-end (decided by the model, Msg.quoteSplit) are removed from the generated streams, "
+        "two minimal ones are replayed from corpus/C17; stream 2 = quoted/escaped/whitespace argument "
         "texts cut at every pair of positions, and every wrapped queue of capacity <= 4 through mpt_message_get; "
         "stream 3 = random op histories on random cuts of longer texts, some malformed ops. "
         "non-trivial = a script in which the cursor had at least 2 non-empty fragments and an op crossed a fragment "
@@ -109,8 +114,12 @@ def groups(frags, n):
             rd += [f, "m read %d nodst" % k, "m read %d" % (n + 1)]
     av = []
     for s in SEPS:
+        if s == "20":
+            continue
         av += [f, "m argv " + s, "m read 1", "m argv " + s, "m len", f, "m args " + s]
-    return [("s", search), ("t", tok), ("c", cpy), ("r", rd), ("a", av)]
+    # the white-space separator gets scripts of its own (the known finding lives there, see `drop_keyed`)
+    return [("s", search), ("t", tok), ("c", cpy), ("r", rd), ("a", av),
+            ("a20", [f, "m argv 20", "m read 1", "m argv 20", "m len"]), ("A20", [f, "m args 20"])]
 
 
 def all_strings(n):
@@ -121,24 +130,42 @@ ARGTEXTS = [b"'a b' c", b'"a\\" b" c', b"  ab  cd ", b"a\\'' b' c", b"\t\n x'y z
             b"#x\n a #y", b" '", b"''  ", b"a\\", b"\\'a 'b"]
 
 
+def drop_keyed(out):
+    """Scripts that enter the keyed region of the known finding `quote-open-at-base-end` are taken out of the
+    generated streams (two minimal ones are kept in corpus/C17 and replayed on every run, so the finding stays
+    visible).  The region is decided by the model itself: its driver marks such calls with `Q qsplit=1`
+    (Msg.quoteSplit / Msg.argsSplit, the same definitions the theorems `argv_flat_partial`/`args_flat_partial`
+    exclude).  Without this every one of the ~10^3 affected scripts would be shrunk and re-reported."""
+    exe = build.model_exe(area)
+    if not os.path.exists(exe):
+        return out
+    res = _run.run_batch([exe], [s for _, s in out])
+    return [(name, s) for (name, s), (lines, _f) in zip(out, res) if not any("| Q qsplit=1" in ln for ln in lines)]
+
+
 def scripts(tier, seed, scale=1):
+    return drop_keyed(_scripts(tier, seed, scale))
+
+
+def _scripts(tier, seed, scale=1):
     out = []
-    top = 3 if tier == "quick" else 4
-    for n in range(0, top + 1):
+    for n in range(0, 4 if tier == "quick" else 5):
         for s in all_strings(n):
-            for nm, fr in fraglists(bytes(s)):
+            # length 4 (thorough only): every composition, at most one empty fragment inserted
+            for nm, fr in fraglists(bytes(s), 2 if n <= 3 else 1):
                 for tag, ops in groups(fr, n):
                     out.append(("ex:%s:%s" % (nm, tag), ops))
-    # seeded sample of the next length
+    # seeded samples of the next scopes (length 4 with two empty fragments; thorough: length 5 as well)
     r = gen.rng(id, tier, seed, "sample")
     nsample = (400 if tier == "quick" else 3000) * scale
-    for k in range(nsample):
-        s = bytes(r.choice(ALPHA) for _ in range(top + 1))
-        parts = r.choice(list(compositions(top + 1)))
-        sizes = r.choice(list(with_empties(parts)))
-        fr = cut(s, sizes)
-        for tag, ops in groups(fr, top + 1):
-            out.append(("smp:%s/%s:%s" % (gen.hexs(s), "x".join(map(str, sizes)), tag), ops))
+    for ln in ((4,) if tier == "quick" else (4, 5)):
+        comps = list(compositions(ln))
+        for k in range(nsample):
+            s = bytes(r.choice(ALPHA) for _ in range(ln))
+            sizes = r.choice(list(with_empties(r.choice(comps))))
+            fr = cut(s, sizes)
+            for tag, ops in groups(fr, ln):
+                out.append(("smp:%s/%s:%s" % (gen.hexs(s), "x".join(map(str, sizes)), tag), ops))
     # boundary-directed: argument texts cut at every pair of positions (+ an empty fragment in between)
     for t in ARGTEXTS:
         n = len(t)
@@ -151,12 +178,12 @@ def scripts(tier, seed, scale=1):
                         continue
                     seen.add(fr)
                     f = "m frags " + fr
-                    ops = []
+                    nm = "arg:%d/%s" % (ARGTEXTS.index(t), "x".join(map(str, sizes)))
                     for s in ("20", "00", "2c", "0a"):
-                        ops += [f, "m argv " + s, "m read 2", "m argv " + s, f, "m args " + s]
-                    ops += [f, "m tok 20 23 2722", "m tok null 23 27", "m tok null null 2722", "m tok 2c null null",
-                            "m tok null 23 null", "m tok 0a 23 22"]
-                    out.append(("arg:%d/%s" % (ARGTEXTS.index(t), "x".join(map(str, sizes))), ops))
+                        out.append((nm + ":v" + s, [f, "m argv " + s, "m read 2", "m argv " + s]))
+                        out.append((nm + ":s" + s, [f, "m args " + s]))
+                    out.append((nm + ":t", [f, "m tok 20 23 2722", "m tok null 23 27", "m tok null null 2722", "m tok 2c null null",
+                                            "m tok null 23 null", "m tok 0a 23 22"]))
     # every queue of capacity <= 4 (thorough 5) through mpt_message_get
     qtop = 4 if tier == "quick" else 5
     for mx in range(1, qtop + 1):
